@@ -29,7 +29,7 @@ type Case struct {
 	Holds     []sched.Hold `json:"holds,omitempty"`
 }
 
-const deadline = 10 * time.Second
+const deadline = 30 * time.Second
 
 var kinds = []string{"walk", "walkinplace", "open", "create", "read", "write", "stat", "wstat", "clunk", "remove", "attach", "auth"}
 
